@@ -35,7 +35,12 @@ fn check_transform(base_ratios: bool, base: &Flat, text2: &str, what: &str, fs: 
     let t = subj::tol(mag);
     out.compared += 1;
     let ratios = base_ratios && cmp::ratios_ok(&e2, mag);
-    let d = cmp::cmp_flat_m(base, &f2, t, 1e-5, mag, mag, &|p| annual_only(p) || (p.starts_with("rer") && !ratios), &|_, x| x);
+    // annual figures are f32 sums over the steps: their rounding error grows with the number of steps
+    // (8760 steps: 1.3e-4 relative), so the relative tolerance does too
+    let steps2 = cmp::num_steps(text2) as f64;
+    let rel = 1e-5f64.max(0.25 * steps2 * f32::EPSILON as f64);
+    let t = t.max(rel * mag * 0.1);
+    let d = cmp::cmp_flat_m(base, &f2, t, rel, mag, mag, &|p| annual_only(p) || (p.starts_with("rer") && !ratios), &|_, x| x);
     if !d.is_empty() {
         let (a, b) = show(&d);
         out.viol("annual_results_unchanged", &[what.split(':').next().unwrap_or("")], &cfg, format!("transformed: {b}"), format!("original: {a}"));
@@ -63,7 +68,7 @@ fn check_transform(base_ratios: bool, base: &Flat, text2: &str, what: &str, fs: 
 }
 
 impl StateCheck for C09 {
-    fn check(&self, text: &str, _l: &[Line], out: &mut Out) {
+    fn check(&self, text: &str, added: &[Line], out: &mut Out) {
         let comps = match subj::parse(text) {
             Ok(c) => c,
             Err(_) => {
@@ -84,15 +89,22 @@ impl StateCheck for C09 {
             let rot: Vec<usize> = (0..n).map(|i| (i + 1) % n).collect();
             let rev: Vec<usize> = (0..n).rev().collect();
             let mut v = vec![("perm:rotate".to_string(), rot), ("perm:reverse".to_string(), rev)];
-            for a in [0, n / 2, n - 2] {
+            // hourly bases: rotation, reversal and one swap (each execution flattens some 10^6 per-step leaves)
+            for a in if n >= 1000 { vec![n / 2] } else { vec![0, n / 2, n - 2] } {
                 let mut s: Vec<usize> = (0..n).collect();
                 s.swap(a, a + 1);
                 v.push((format!("perm:swap{a}"), s));
             }
             v
         };
-        let ms: &[usize] = if n <= 3 { &[2, 3, 4] } else { &[2] };
+        // subdivisions: 2..4 on the small states; the 12-step files (as shipped, without added lines) also into 730 sub-steps and the 365-step bases
+        // into 24 (both give the 8760 steps of hourly data), short bases also into 8
+        let ms: &[usize] = if n <= 3 { &[2, 3, 4, 8] } else if n == 12 && added.is_empty() { &[2, 730] } else if n == 365 { &[2, 24] } else { &[2] };
         for (fs, k, lm) in [("PENINSULA", 0.0f32, false), ("PENINSULA", 1.0, true), ("SKEW", 1.0, false), ("SKEW+COGEN", 0.0, true)] {
+            // hourly bases: the two configurations with load matching (the step-count sensitive code)
+            if n >= 1000 && !lm {
+                continue;
+            }
             let f = subj::fset(fs);
             out.evals += 1;
             let Ok(e) = subj::eval(&comps, f, k, 1.0, lm) else {
@@ -146,6 +158,9 @@ fn aux3_letters() -> Vec<Letter> {
             al.push(Letter::many(vec![u(Some(1), "ACS", "GASNATURAL", &k(&[3, 1, 2])), u(Some(1), "CAL", "GASNATURAL", &k(&[1, 3, 2])), o(1, "ACS", &k(&o1)), o(1, "CAL", &k(&o2)), a(Some(1), &k(&av))]));
         }
     }
+    // a system whose delivered energy is a few hundredths of a kWh at some steps (stand-by months): dividing a
+    // step must not take its outputs below anything the code treats as nothing
+    al.push(Letter::many(vec![u(Some(3), "ACS", "GASNATURAL", &[300, 4, 200]), u(Some(3), "CAL", "GASNATURAL", &[100, 4, 200]), o(3, "ACS", &[250, 3, 100]), o(3, "CAL", &[80, 2, 150]), a(Some(3), &[100, 50, 100])]));
     al.push(Letter::one(u(Some(0), "ILU", "ELECTRICIDAD", &k(&[1, 2, 3]))));
     al.push(Letter::one(p(Some(0), "EL_INSITU", &k(&[3, 0, 1]))));
     al.push(Letter::many(vec![u(Some(2), "CAL", "ELECTRICIDAD", &k(&[1, 1, 0])), u(Some(2), "REF", "ELECTRICIDAD", &k(&[0, 1, 2])), o(2, "CAL", &k(&[2, 3, 0])), o(2, "REF", &[0, -100, -400]), a(Some(2), &k(&[1, 0, 1]))]));
@@ -162,7 +177,7 @@ pub fn run(ctx: &Ctx) -> i32 {
         &C09,
         Finish {
             level: "model_checking",
-            rule: "every FLOW state x 4 (factors,k,load matching) x {all T! step permutations (12-step bases: rotation, reversal, 3 adjacent swaps), subdivision m in {2,3,4} (12-step bases: 2)}; transformations applied to the FILE TEXT so that parsing and normalization are inside the relation; non-trivial = state with cogeneration".into(),
+            rule: "every FLOW state x 4 (factors,k,load matching) x {all T! step permutations (12-step bases: rotation, reversal, 3 adjacent swaps), subdivision m in {2,3,4,8} (12-step bases: 2 and 730, 365-step bases: 2 and 24, i.e. up to 8760 steps)}; transformations applied to the FILE TEXT so that parsing and normalization are inside the relation; non-trivial = state with cogeneration".into(),
             assumptions: strs(&["annual leaves compared with 2e-5*magnitude+1e-6 (+1e-5 relative)", "subdivided values are written with f32 round-trip precision"]),
             required_regimes: strs(&["cogeneration", "load_matching_active", "subdivide:2", "subdivide:3", "subdivide:4"]),
             extra: serde_json::json!({}),
